@@ -217,6 +217,20 @@ theorem scaleMat_outside (n nrhs ld : Nat) (M : Array K) (s : Nat → R) (k : Na
   | none => rfl
   | some v => simp [h]
 
+theorem copyMat_outside (n nrhs ldb ldx : Nat) (B X : Array K) (k : Nat)
+    (h : ¬ (k % ldx < n ∧ k / ldx < nrhs)) : (copyMat n nrhs ldb ldx B X)[k]? = X[k]? := by
+  simp only [copyMat, Array.getElem?_mapIdx]
+  cases hk : X[k]? with
+  | none => rfl
+  | some v => simp [h]
+
+theorem setCols_outside (n nrhs ld : Nat) (M : Array K) (f : Nat → Array K) (k : Nat)
+    (h : ¬ (k % ld < n ∧ k / ld < nrhs)) : (setCols n nrhs ld M f)[k]? = M[k]? := by
+  simp only [setCols, Array.getElem?_mapIdx]
+  cases hk : M[k]? with
+  | none => rfl
+  | some v => simp [h]
+
 theorem copyMat_size (n nrhs ldb ldx : Nat) (B X : Array K) : (copyMat n nrhs ldb ldx B X).size = X.size := by
   simp [copyMat]
 
